@@ -154,6 +154,10 @@ def curve(rng, n=None, family=None, nmax=80, nmin=2):
     else:
         raise ValueError(fam)
     y = np.where(y < 0, 0.0, y)
+    if rng.random() < 0.05 and fam != 'const':
+        # large base level (latencies in ns, counters): the mean of y is 1e2 .. 1e8 times its spread
+        y = y + (float(np.max(y)) or 1.0) * 10.0 ** float(rng.uniform(2, 8))
+        fam = fam + '+offset'
     pts = np.column_stack((x, y)).astype(float)
     return np.ascontiguousarray(pts), {'family': fam, 'xpat': pat}
 
